@@ -158,8 +158,6 @@ def monitor(ops, outs):
                             "op %d `%s` answered Procedure Already In Progress (0xFE) although no accepted procedure awaits its response; last refused write: %s" % (k, op, last_error_write))
                 if out != "err fe" and not pending and well_formed(v):
                     return k, "C40:wellformed-request-refused:" + out.replace(" ", "-"), "op %d `%s`: well-formed request with nothing pending answered `%s`" % (k, op, out)
-                if pending and v and out != "err fe":
-                    return k, "C40:pending-not-rejected:" + out.replace(" ", "-"), "op %d `%s` answered `%s` while a procedure is pending" % (k, op, out)
                 # the suspected cause of a later wedge: the most recent refused write the handler
                 # looked at (empty and 0xFE-rejected writes are only remembered if nothing else was)
                 if v and out != "err fe":
